@@ -7,7 +7,7 @@ from .. import runcheck as RC
 from .. import store as S
 
 
-def run_and_judge(rep, scns, clauses, sig_fn=None, timeout=300, nontrivial_fn=None):
+def run_and_judge(rep, scns, clauses, sig_fn=None, timeout=1500, nontrivial_fn=None):
     RC.warm()
     hists = C.fork_map(S.run_history, scns, timeout=timeout)
     traces = []
